@@ -16,6 +16,7 @@ import GeoProofs.Lemmas.C10Stitch
 import GeoProofs.Lemmas.C10Mono
 import GeoProofs.Lemmas.MONOInit
 import GeoProofs.Lemmas.MONOSweepC
+import GeoProofs.Lemmas.MONOFuelD
 import GeoProofs.Props.C19
 import Mathlib.Tactic.NormNum
 
@@ -388,6 +389,21 @@ theorem monotone_sweep_points_increasing (ps : List Poly) : lexSorted (sweepPoin
   (sweepTrace_sorted _ _ _ (initState_sinv ps)).1
 
 example : Geo.Proofs.MONO.sweepPoints [lShape] = [⟨0,2⟩, ⟨0,4⟩, ⟨1,0⟩, ⟨1,2⟩, ⟨3,0⟩, ⟨3,4⟩] := by decide +kernel
+
+open Geo.MonoBuild Geo.Proofs.MONO in
+/-- [T] the model is total by fuel, and the fuel is irrelevant: with any fuel `F ≥ fuelFor n` (`n` input lines) the
+model gives the same answer as with `fuelFor n` — so `none` always stands for a panic of the code (`unwrap`,
+`assert!`, `expect`, index out of range), never for an exhausted bound. Termination measure
+`mu = #queued events + 3·Σ_segments #(end points of input lines strictly inside the segment)`: `split_at` cuts at such
+an end point strictly inside (−1 in the sum, +3 events), every popped event is −1, nothing else touches it; each
+popped event costs at most three levels of the nested recursion `handle_event` → round → `while`. -/
+theorem monotone_fuel_irrelevant (ps : List Poly) (F : Nat) (hF : fuelFor (initState ps).segs.length ≤ F) :
+    (buildLoop F F (initState ps)).map (·.outputs) = monotoneSubdivision ps := by
+  unfold monotoneSubdivision
+  rw [buildState_fuel ps F hF]
+
+example : (MonoBuild.buildLoop 100000 100000 (MonoBuild.initState [lShape])).map (·.outputs) =
+    MonoBuild.monotoneSubdivision [lShape] := monotone_fuel_irrelevant _ _ (by decide +kernel)
 
 /-- the pieces of the model as closed rings (`MonoPoly::into_polygon`) -/
 def monoRings (ps : List Poly) : List (List Pt) :=
